@@ -1,24 +1,5 @@
 ------------------------------- MODULE MC_C15 -------------------------------
 (* Bounded instance for the exhaustive check of DiscoveryI against the laws of   *)
-(* DiscoveryP, and (GenC15) the alphabet of the enumerated streams.              *)
-EXTENDS DiscoveryI
-
-R(m, u, s, d, t, c, ity, iver, internal) ==
-    [m |-> m, u |-> u, s |-> s, d |-> d, t |-> t, ts |-> 0, c |-> c, ity |-> ity, iver |-> iver, internal |-> internal]
-
-\* u/1, u/2, u/3 are siblings (the third distinct one crosses Threshold = 2 and converges the group);
-\* a and f share an endpoint with different status / duration; d differs by method only; e has no tag / interceptor
-cLetters == <<
-    R("GET",  "h.com/u/1", 200, 10,   12,   "A", "py", "1", FALSE),
-    R("GET",  "h.com/u/2", 200, 30,   31,   "A", "py", "1", FALSE),
-    R("GET",  "h.com/u/3", 500, 50,   55,   "B", "py", "1", FALSE),
-    R("POST", "h.com/u/1", 201, 7,    9,    "B", "ts", "2", FALSE),
-    R("GET",  "h.com/v/x", 200, 100,  120,  "",  "",   "",  FALSE),
-    R("GET",  "h.com/u/1", 404, 1000, 1001, "A", "py", "1", FALSE),
-    R("GET",  "h.com/u/2", 200, 2000, 2001, "A", "py", "1", TRUE)
->>
-cTs == <<3100, 1200, 5900, 400, 4700, 2999, 7001, 3000>>
-cURLs == {"h.com/u/1", "h.com/u/2", "h.com/u/3", "h.com/v/x"}
-cGroupOf == [u \in cURLs |-> IF u = "h.com/v/x" THEN "h.com/v" ELSE "h.com/u"]
-cNormName == [g \in {"h.com/u", "h.com/v"} |-> g \o "/{_param_1}"]
+(* DiscoveryP (alphabet: C15Alphabet).                                           *)
+EXTENDS DiscoveryI, C15Alphabet
 =============================================================================
